@@ -460,9 +460,9 @@ func runFlat(c FlatCase, r *runlog.R) error {
 	reps := 1
 	if m.mustFail || m.ambiguous {
 		reps = 2
-		if runlog.Env().Replay != "" {
-			reps = 8
-		}
+	}
+	if runlog.Env().Replay != "" {
+		reps = 8 // a replay decides one case: make an order-dependent outcome show up with near certainty
 	}
 	used := map[string]int{}
 	for vi, o := range variants {
